@@ -38,6 +38,9 @@ Base ==
       ZW    |-> Rule(Call("Wrap", <<Pos(Ref("Word"))>>)),
       ZB    |-> Rule(Call("Box", <<Kw("q", Ref("Word"))>>)),
       ZC    |-> Rule(Call("Cnt", <<Pos(PyInt(2))>>)),
+      \* a parameter that is CALLED with arguments (a template passed to a template)
+      Inv   |-> RuleP(<<"h", "z">>, Call("h", <<Pos(Ref("z"))>>)),
+      ZI    |-> Rule(Call("Inv", <<Pos(Ref("Wrap")), Pos(Ref("Word"))>>)),
       Box   |-> ClassP(<<"q">>, <<Field("it", Ref("q")), LetF("n", Py(<<"k", <<"i", 1>>>>)),
                                   Field("stars", Rep(Str(<<42>>), Nm("n"), Nm("n")))>>) ]
 
@@ -46,10 +49,10 @@ Roles == << <<"Item", "rule">>, <<"Word", "rule">>, <<"Pair", "class">>, <<"key"
             <<"gap", "let field">>, <<"Wrap", "template">>, <<"p", "parameter">>, <<"tmp", "let variable">>,
             <<"Box", "class template">>, <<"q", "parameter">>, <<"it", "field">>, <<"n", "let field">>,
             <<"stars", "field">>, <<"m", "parameter">>, <<"xs", "field">>, <<"Cnt", "class template">>,
-            <<"t", "parameter">>, <<"Tab", "template">> >>
+            <<"t", "parameter">>, <<"Tab", "template">>, <<"h", "parameter">>, <<"z", "parameter">>, <<"Inv", "template">> >>
 
 (* names taken from the generated source (dynamic pool) are tried in four representative roles only *)
-DynRoles == {"Word", "key", "p", "tmp", "t"}
+DynRoles == {"Word", "key", "p", "tmp", "t", "h"}
 
 R(rho, x) == IF x \in DOMAIN rho THEN rho[x] ELSE x
 
@@ -107,6 +110,8 @@ Texts == << <<a, b>>, <<a, colon, b>>, <<a, b, colon, sp, b, a, 42, 42, 44, b>>,
             <<a, colon>>, <<33>>, <<a, b, 44, 44>>, <<b, colon, a, 42, 44, 33, a, 42, 44, b, a>>,
             <<a, 33, 43, b>>, <<a, 43, b, 33, 33>>, <<a, 43>>, <<42, 42, a>>, <<a, 42>> >>
 
+Texts2 == << <<a, b>>, <<a, b, 42, 42>>, <<a, 33, 43, b>>, <<a, 43, b, 33, 33>>, <<42, 42, a>>, <<a, 42>>, <<b, 42, 42>>, <<>> >>
+
 VARIABLES ri, pi, done
 vars == <<ri, pi, done>>
 
@@ -125,15 +130,20 @@ StepFixed ==
         /\ done' = TRUE
         /\ UNCHANGED <<ri, pi>>
         /\ IF Clash THEN TRUE
-           ELSE LET es == <<"start", RhoOf("Item"), RhoOf("Word"), RhoOf("Pair"), "Zlast", "Tuse", "ZW", "ZB", "ZC">>
+           ELSE LET es == <<"start", RhoOf("Item"), RhoOf("Word"), RhoOf("Pair")>>
                     n1 == Len(es) * Len(Texts)
+                    es2 == <<"Zlast", "Tuse", "ZW", "ZB", "ZC", "ZI">>        \* secondary entries: a few texts each
+                    n2 == Len(es2) * Len(Texts2)
                     cur == << <<42, 42, a>>, <<42, 42>>, <<42>>, <<42, 42, 42>>, <<>> >>
                 IN PrintT(ToJson([g |-> G1,
                                   cfg |-> [prop |-> "C20", renamed |-> Roles[ri][1], role |-> Roles[ri][2], to |-> Pool[pi].name],
-                                  runs |-> [k \in 1..(n1 + Len(cur)) |->
+                                  runs |-> [k \in 1..(n1 + n2 + Len(cur)) |->
                                               IF k <= n1
                                               THEN Run(G1, es[((k - 1) \div Len(Texts)) + 1], Texts[((k - 1) % Len(Texts)) + 1], 0)
-                                              ELSE RunArgs(G1, RhoOf("Cnt"), << <<"i", 2>> >>, cur[k - n1], 0)]]))
+                                              ELSE IF k <= n1 + n2
+                                              THEN Run(G1, es2[((k - n1 - 1) \div Len(Texts2)) + 1],
+                                                       Texts2[((k - n1 - 1) % Len(Texts2)) + 1], 0)
+                                              ELSE RunArgs(G1, RhoOf("Cnt"), << <<"i", 2>> >>, cur[k - n1 - n2], 0)]]))
 
 Next == StepFixed
 
